@@ -34,8 +34,16 @@ def replay_and_validate(tag, init, behaviours, shards=16, timeout=1800, seed=0):
     n = max(1, min(shards, len(items)))
     chunks = [items[i::n] for i in range(n)]
     t0 = time.time()
-    with mp.Pool(min(n, os.cpu_count() or 1)) as pool:
-        outs = pool.map(_drive_chunk, [(tag, i, init, c, seed) for i, c in enumerate(chunks)])
+    # ProcessPoolExecutor: a worker that dies (e.g. killed for memory) raises BrokenProcessPool
+    # instead of leaving map() waiting for ever
+    from concurrent.futures import ProcessPoolExecutor
+    from concurrent.futures.process import BrokenProcessPool
+    try:
+        with ProcessPoolExecutor(max_workers=min(n, os.cpu_count() or 1),
+                                 mp_context=mp.get_context("fork")) as pool:
+            outs = list(pool.map(_drive_chunk, [(tag, i, init, c, seed) for i, c in enumerate(chunks)]))
+    except BrokenProcessPool as e:
+        raise MachineryError("a replay worker died (%s); reduce the number of behaviours" % (e,))
     t_drive = time.time() - t0
     files = [o[0] for o in outs]
     nsteps = sum(o[1] for o in outs)
